@@ -96,6 +96,12 @@ inductive Err
   | notFound | notDir | isDir | access | loop | notEmpty | exists | fuel | unsupported | parse
 deriving DecidableEq, Repr
 
+instance instDecEqExcept {ε α : Type} [DecidableEq ε] [DecidableEq α] : DecidableEq (Except ε α)
+  | .ok a, .ok b => if h : a = b then isTrue (by rw [h]) else isFalse (by intro e; cases e; exact h rfl)
+  | .error a, .error b => if h : a = b then isTrue (by rw [h]) else isFalse (by intro e; cases e; exact h rfl)
+  | .ok _, .error _ => isFalse (by intro e; cases e)
+  | .error _, .ok _ => isFalse (by intro e; cases e)
+
 inductive Comp
   | name (n : Name)
   | up
@@ -374,8 +380,12 @@ def unlinkAll (root : Bool) : FS → List Path → Res
     | .ok fs' => unlinkAll root fs' ps
     | .error e => if e = .notFound then unlinkAll root fs ps else (.error e, fs)
 
-/-- depth budget of the recursion: no chain of nested directories is longer than the number of recorded paths -/
-def depthFuel (fs : FS) : Nat := fs.length + 1
+/-- depth budget of the recursion: no recorded path is longer than the longest one -/
+def maxKeyLen : FS → Nat
+  | [] => 0
+  | (k, _) :: r => max k.length (maxKeyLen r)
+
+def depthFuel (fs : FS) : Nat := maxKeyLen fs + 1
 
 /-- `delete_layer`: the directory (not-found tolerated, wherever it arises), then `<name>.toml`, then the SBOM files -/
 def deleteLayerWith (rm : FS → Path → Res) (root : Bool) (fs : FS) (n : Name) : Res :=
@@ -402,7 +412,17 @@ deriving DecidableEq, Repr
 inductive Stage | read | delete | write
 deriving DecidableEq, Repr
 
-abbrev ReqRes := Except (Stage × Err) Unit × FS
+/-- outcome of `create_layer` -/
+abbrev CreateRes := Except (Stage × Err) Unit × FS
+
+/-- outcome of a request: failure with its stage, or success telling whether an existing layer was deleted first
+(`LayerState::Empty { cause: RestoredLayerAction | InvalidMetadataAction }` / the strategy callback ran) or the layer is
+`NewlyCreated` -/
+abbrev ReqRes := Except (Stage × Err) Bool × FS
+
+def tag (deleted : Bool) : CreateRes → ReqRes
+  | (.ok _, s) => (.ok deleted, s)
+  | (.error e, s) => (.error e, s)
 
 /-- The target layer's `<name>.toml` is recorded as a one-byte token naming the document (the TOML text itself is
 C01/C07/C08's subject): `B` is not a content-metadata document at all, anything else is one. -/
@@ -419,7 +439,7 @@ def freshToml : Api → Bytes
 
 /-- `create_layer` / `handle_create_layer`: `create_dir_all`, write `<name>.toml`; the trait API then replaces the SBOM
 files by the (empty) list of the create result -/
-def createLayer (root : Bool) (api : Api) (fs : FS) (n : Name) : ReqRes :=
+def createLayer (root : Bool) (api : Api) (fs : FS) (n : Name) : CreateRes :=
   match mkdirAll root 2 fs (layerPath n) with
   | .error e => (.error (.write, e), fs)
   | .ok fs1 =>
@@ -439,11 +459,11 @@ def createLayer (root : Bool) (api : Api) (fs : FS) (n : Name) : ReqRes :=
 def request (root : Bool) (api : Api) (fs : FS) (n : Name) : ReqRes :=
   let dirE := existsB root fs (layerPath n)
   let tomlE := existsB root fs (tomlPath n)
-  if !dirE && !tomlE then createLayer root api fs n
+  if !dirE && !tomlE then tag false (createLayer root api fs n)
   else if !dirE then
     match unlink root fs (tomlPath n) with
     | .error e => (.error (.read, e), fs)
-    | .ok fs1 => createLayer root api fs1 n
+    | .ok fs1 => tag false (createLayer root api fs1 n)
   else
     match (if tomlE then Except.ok fs else writeFile root fs (tomlPath n) emptyToml) with
     | .error e => (.error (.read, e), fs)
@@ -455,6 +475,6 @@ def request (root : Bool) (api : Api) (fs : FS) (n : Name) : ReqRes :=
         else
           match deleteLayer root fs1 n with
           | (.error e, fs2) => (.error (.delete, e), fs2)
-          | (.ok _, fs2) => createLayer root api fs2 n
+          | (.ok _, fs2) => tag true (createLayer root api fs2 n)
 
 end CnbVerif.RmTree
